@@ -64,6 +64,7 @@ type N struct {
 	Bind  bool            `json:"bind"`  // switch v := e.(type)
 	Rot   int             `json:"rot"`   // rotation of the clauses (the default clause among them)
 	Ty    string          `json:"ty"`
+	M     string          `json:"m"` // method name of an unnamed-receiver call (tag, ptag)
 }
 
 type Case struct {
@@ -168,7 +169,7 @@ func (b *Beh) PanicValue() string {
 }
 
 // TypeDecl is the declaration of T with its methods, as it stands in the prelude.
-const TypeDecl = "type T struct{ a, b int }\n\nfunc (t *T) bump(d int) { t.a += d }\n\nfunc (t T) sum() int { return t.a*3 + t.b }\n"
+const TypeDecl = "type T struct{ a, b int }\n\nfunc (t *T) bump(d int) { t.a += d }\n\nfunc (t T) sum() int { return t.a*3 + t.b }\n\nfunc (T) tag(d int) int { return d*2 + 1 }\n\nfunc (*T) ptag(d int) int { return d + 7 }\n"
 
 const Prelude = `package main
 
@@ -179,6 +180,10 @@ type T struct{ a, b int }
 func (t *T) bump(d int) { t.a += d }
 
 func (t T) sum() int { return t.a*3 + t.b }
+
+func (T) tag(d int) int { return d*2 + 1 }
+
+func (*T) ptag(d int) int { return d + 7 }
 
 var g0, g1 = 1, 2
 var t = T{3, 4}
@@ -319,6 +324,8 @@ func Expr(e *N) string {
 		return e.P + "." + e.F
 	case "usum":
 		return e.S + ".sum()"
+	case "utag":
+		return e.S + "." + e.M + "(" + Expr(e.E) + ")"
 	case "bvar":
 		return e.S
 	case "ucmp":
